@@ -751,6 +751,13 @@ func (r *extRun) straddle() error {
 func (r *extRun) manyExtents(k int) error {
 	fs := r.vol.FS
 	names := []string{"many-extents-x.bin", "many-extents-y.bin"}
+	// a small file written first and removed before the truncation below: the blocks it leaves free lie
+	// below everything else, so a tree that is rebuilt afterwards does not land on the blocks it had
+	pad := "many-extents-pad.bin"
+	if f, e := fs.OpenFile(pad, os.O_CREATE|os.O_RDWR); e == nil {
+		f.Write(r.content(29, 0, 3*r.B))
+		f.Close()
+	}
 	for _, n := range names {
 		f, e := fs.OpenFile(n, os.O_CREATE|os.O_RDWR)
 		if e != nil {
@@ -763,6 +770,7 @@ func (r *extRun) manyExtents(k int) error {
 	}
 	cleanup := func() error {
 		var first error
+		fs.Remove(pad) // gone already unless the macro stopped early
 		for _, n := range names {
 			if e := fs.Remove(n); e != nil && first == nil {
 				first = fmt.Errorf("cannot remove %s: %v", n, e)
@@ -829,6 +837,18 @@ func (r *extRun) manyExtents(k int) error {
 		if e := check(done); e != nil {
 			cleanup()
 			return e
+		}
+	}
+	fs.Remove(pad)
+	// shrink the file with the deep tree (ext4.FileSystem.Truncate rebuilds the tree from the extents that
+	// stay): the rest must read back and the image must be clean
+	if tr, ok := fs.(interface{ Truncate(string, int64) error }); ok && done >= 8 {
+		keep := done * 3 / 4
+		if e := tr.Truncate(names[0], int64(keep)*r.B); e == nil {
+			if e := check(keep); e != nil {
+				cleanup()
+				return fmt.Errorf("after Truncate to %d of %d extents: %v", keep, done, e)
+			}
 		}
 	}
 	if e := cleanup(); e != nil {
